@@ -61,6 +61,15 @@ func (r *RunInfo) Logf(format string, a ...any) {
 	}
 }
 
+// Notef appends a line to the readable trace only. It is for text whose order the simulator does not
+// own (kyber's own log lines, some of which are emitted while ranging over a Go map): it is not part
+// of the event-log digest that replays are compared on.
+func (r *RunInfo) Notef(format string, a ...any) {
+	if r.keep && len(r.Trace) < 4000 {
+		r.Trace = append(r.Trace, "~ "+fmt.Sprintf(format, a...))
+	}
+}
+
 // SigAdd adds a token to the schedule signature (canonical event order).
 func (r *RunInfo) SigAdd(format string, a ...any) {
 	fmt.Fprintf(r.sig, format, a...)
